@@ -385,7 +385,9 @@ class C14(Property):
             if isinstance(t, str) and t.startswith("'a") and t.endswith("b'") and len(t) >= 6:
                 cand = t[2:-2]
                 pc = self.splice_pieces(cand)
-                if pc is not None and strutils.args2sh(["'"]) == "'" + cand + "'":
+                # (a decomposition that does not denote exactly one single quote is not proposed: the model then
+                # keeps the classic splice and the oracle / acceptance decide about the implementation's text)
+                if pc is not None and ''.join(v for _, v in pc) == "'" and strutils.args2sh(["'"]) == "'" + cand + "'":
                     splice, pieces = cand, pc
         except Exception:
             pass
